@@ -103,6 +103,7 @@ func VerifC05_MethodRounds() {
 		nc.Status.ProviderID, nc.Status.NodeName = pid, name
 		nc.Status.Capacity, nc.Status.Allocatable = it.Capacity, it.Capacity
 		nc.CreationTimestamp = metav1.Time{Time: now.Add(-2 * time.Hour)}
+		nc.Finalizers = []string{v1.TerminationFinalizer}
 		stubs.SetCondition(nc, v1.ConditionTypeInitialized, metav1.ConditionTrue, now.Add(-time.Hour))
 		stubs.SetCondition(nc, v1.ConditionTypeConsolidatable, metav1.ConditionTrue, now.Add(-time.Minute))
 		stubs.SetCondition(nc, v1.ConditionTypeDrifted, metav1.ConditionTrue, now.Add(-time.Minute))
@@ -124,10 +125,18 @@ func VerifC05_MethodRounds() {
 			notReady[kc.Nodes[i].Spec.ProviderID] = true
 		}
 	}
+	// (a NodeClaim the queue has already deleted in the API is being deleted, whether or not the informer has told the
+	// cluster state yet)
 	disrupted := func() int {
 		k := 0
 		for sn := range cluster.Nodes() {
-			if sn.MarkedForDeletion() || notReady[sn.ProviderID()] {
+			deleting := false
+			for _, nc := range kc.Claims {
+				if nc.Status.ProviderID == sn.ProviderID() && !nc.DeletionTimestamp.IsZero() {
+					deleting = true
+				}
+			}
+			if sn.MarkedForDeletion() || notReady[sn.ProviderID()] || deleting {
 				k++
 			}
 		}
@@ -153,6 +162,24 @@ func VerifC05_MethodRounds() {
 		if after > before {
 			verifrt.Reach("selected")
 			verifrt.Assert(after <= allowed, "nodes newly selected for disruption plus those already not ready or being deleted never exceed the budget, also over consecutive rounds")
+		}
+		// between the rounds the orchestration queue may carry out what it holds (the candidates' NodeClaims get their
+		// deletionTimestamp in the API; the informer has not delivered that to the cluster state yet)
+		if round == 0 && verifrt.Choice("queueRunsBetweenRounds", 0, 1) == 1 {
+			for _, nc := range append([]*v1.NodeClaim{}, kc.Claims...) {
+				if queue.HasAny(nc.Status.ProviderID) {
+					_, qerr := queue.Reconcile(ctx, nc.DeepCopy())
+					verifrt.Assert(qerr == nil, "the queue reconciles")
+					verifrt.Reach("queue-ran")
+				}
+			}
+			mid := disrupted()
+			verifrt.Assert(mid <= allowed || mid <= before, "carrying out a command does not make more nodes count as disrupted than the budget allows")
+			// what the next round may still select, as the controller itself computes it, plus what is already being
+			// deleted or not ready stays within the budget (which of the nodes a later round picks depends on map order)
+			mapping, merr := BuildDisruptionBudgetMapping(ctx, cluster, clk, kc, cp, rec, m.Reason())
+			verifrt.Assert(merr == nil, "the budget mapping is built")
+			verifrt.Assert(mapping["pool-1"]+mid <= allowed || mapping["pool-1"] == 0, "what may still be selected plus the nodes already being deleted or not ready never exceeds the budget while a finished command's deletions are still in flight")
 		}
 	}
 }
